@@ -15,4 +15,4 @@ typedef SetExtractedItem<C10TT, TreeSetSettings> C10ET;
 template class SetExtractedItem<C10TT, TreeSetSettings>;
 inline void c10_use2(C10ET& e) { C10Creator c; C10Remover r; e.Create(c); e.Remove(r); }
 }}
-namespace momo { template class TreeSet<uint64_t>; }
+namespace momo { template class TreeSet<uint64_t>; template class HashSet<uint64_t>; }
